@@ -1,17 +1,27 @@
 (* G_ext, scancode decoders: transition tables of the compiled crate packaged as ScanImpl *)
-From Coq Require Import NArith Bool List.
+From Coq Require Import NArith PArith Bool List FMapPositive.
 From PK Require Import Base.Outcome Base.Finite Gen.Types Impl Ext.Set1 Ext.Set2.
 Import ListNotations.
 Local Open Scope N_scope.
 
-Definition table_step (tbl : list (list (outcome (N * sc_result)))) (s b : N) : outcome (N * sc_result) :=
-  nth (N.to_nat b) (nth (N.to_nat s) tbl []) Panic.
+(* transition rows indexed through a binary trie keyed by 256 * state + byte: a look-up must not cost a walk
+   down lists with unary indices (a decoder with a memo field has thousands of states) *)
+Definition table_map (tbl : list (list (outcome (N * sc_result)))) : PositiveMap.t (outcome (N * sc_result)) :=
+  snd (fold_left (fun (acc : N * PositiveMap.t _) row =>
+         (fst acc + 1,
+          snd (fold_left (fun (a : N * PositiveMap.t _) cell => (fst a + 1, PositiveMap.add (N.succ_pos (256 * fst acc + fst a)) cell (snd a)))
+                         row (0, snd acc))))
+       tbl (0, PositiveMap.empty _)).
+Definition map_step (m : PositiveMap.t (outcome (N * sc_result))) (s b : N) : outcome (N * sc_result) :=
+  if b <? 256 then match PositiveMap.find (N.succ_pos (256 * s + b)) m with Some r => r | None => Panic end else Panic.
+Definition ext_set1_map := table_map ext_set1_table.
+Definition ext_set2_map := table_map ext_set2_table.
 
 Definition ext_set1 : ScanImpl := {|
   sc_st := N; sc_eqb := N.eqb; sc_eqb_ok := EqbSpec_N; sc_init := Ret 0;
-  sc_step := table_step ext_set1_table
+  sc_step := map_step ext_set1_map
 |}.
 Definition ext_set2 : ScanImpl := {|
   sc_st := N; sc_eqb := N.eqb; sc_eqb_ok := EqbSpec_N; sc_init := Ret 0;
-  sc_step := table_step ext_set2_table
+  sc_step := map_step ext_set2_map
 |}.
